@@ -184,6 +184,34 @@ Example C20_split_drops_gaps :
   pretok (rplus (cls UL)) [97; 32; 98]%N = [[97]; [98]]%N.
 Proof. vm_compute. reflexivity. Qed.
 
+(** the round trip NEEDS a partition: for a byte-covering vocabulary Decode (Encode s) is the concatenation of the
+    pieces the pre-tokeniser returned (and of the special literals), so it equals s exactly when the pieces of the
+    fragments concatenate to s.  A model constructor that chooses a pattern which does not match all text loses the
+    unmatched text (BytePairEncoding.split yields only the matches); the check builds the tokenizer through every model
+    constructor and metadata variant and tests this on whitespace-rich texts. *)
+Theorem C20_bpe_decode_is_pieces : forall v split s,
+  vocab_consistent v -> bpe_complete v -> specials_in_vocab v ->
+  specials_plain_b v s = true -> pieces_ok v split s ->
+  bpe_decode v (bpe_encode v split s false) = Some (concat (map (frag_out split) (fragments v s))) /\
+  (bpe_decode v (bpe_encode v split s false) = Some s <-> concat (map (frag_out split) (fragments v s)) = s).
+Proof.
+  intros v split s H1 H2 H3 H4 H5.
+  assert (E : bpe_decode v (bpe_encode v split s false) = Some (concat (map (frag_out split) (fragments v s)))).
+  { apply bpe_decode_is_pieces; try assumption. apply specials_plain_b_spec, H4. }
+  split; [exact E|]. rewrite E. split; [intros [= ->]; reflexivity|intros ->; reflexivity].
+Qed.
+Print Assumptions C20_bpe_decode_is_pieces.
+
+(** llama.cpp's GPT-2 pattern WITHOUT its trailing [|\s+] ('s|'t|'re|'ve|'m|'ll|'d| ?\p{L}+| ?\p{N}+| ?[^\s\p{L}\p{N}]+|\s+(?!\S))
+    is not gapless: a lone newline directly before a non-space rune is matched by no alternative and dropped *)
+Example C20_gpt2_without_tail_drops_newline :
+  let cls := cls_of_table [(97, 129); (98, 129); (10, 4)]%N in
+  let gpt2_no_tail :=
+    alts [contractions; Seq (ropt (eqc 32)) (rplus (cls UL)); Seq (ropt (eqc 32)) (rplus (cls UN));
+          Seq (ropt (eqc 32)) (rplus (not_S_L_N cls))] (Seq (rplus (cls US)) (NegLook (pnot (cls US)))) in
+  pretok gpt2_no_tail [97; 10; 98]%N = [[97]; [98]]%N.
+Proof. vm_compute. reflexivity. Qed.
+
 (** BPE round trip with the modelled pre-tokeniser: NO hypothesis about the pre-tokeniser is left; in exchange the
     text must be valid UTF-8 and the special tokens valid UTF-8 (fragments of a valid text are then valid) *)
 Theorem C20_bpe_roundtrip_llama3 : forall v cls rs,
